@@ -1079,6 +1079,28 @@ func (t *Transaction) Catalog() *Catalog {
 	return t.catalog
 }
 
+// state returns the catalog and dirty flag of the transaction. Every write
+// installs a modified copy of the catalog, so restoring an earlier state undoes
+// the writes made since.
+func (t *Transaction) state() (*Catalog, bool) {
+	// acquire read lock
+	t.mutex.RLock()
+	defer t.mutex.RUnlock()
+
+	return t.catalog, t.dirty
+}
+
+// restore sets the catalog and dirty flag of the transaction to an earlier
+// state.
+func (t *Transaction) restore(catalog *Catalog, dirty bool) {
+	// acquire write lock
+	t.mutex.Lock()
+	defer t.mutex.Unlock()
+
+	t.catalog = catalog
+	t.dirty = dirty
+}
+
 // Clean will clean the oplog and only keep up to the specified amount of events
 // and delete events that are older than the specified age.
 func (t *Transaction) Clean(minSize, maxSize int, minAge, maxAge time.Duration) {
